@@ -7,6 +7,7 @@ use serde_json::{json, Value};
 pub struct PG {
     g: ProofGraph,
     nh: u64,
+    same_keys: bool,
 }
 
 fn key(h: u64) -> FactKey {
@@ -15,7 +16,7 @@ fn key(h: u64) -> FactKey {
 
 impl PG {
     pub fn new(cfg: &Value) -> PG {
-        PG { g: ProofGraph::new(), nh: cfg["NH"].as_u64().unwrap_or(3) }
+        PG { g: ProofGraph::new(), nh: cfg["NH"].as_u64().unwrap_or(3), same_keys: cfg["keys"].as_str() == Some("same") }
     }
     fn obs(&mut self) -> Value {
         let mut v = vec![];
@@ -42,7 +43,10 @@ impl Model for PG {
             "insert" => {
                 let prem: Vec<FactHandle> =
                     l["prem"].as_array().unwrap().iter().map(|p| FactHandle::new(p.as_u64().unwrap())).collect();
-                let keys = prem.iter().map(|p| format!("F{}.v == true", p.id())).collect();
+                // premise keys are the human-readable patterns the premises matched: per handle, or (variant) the SAME pattern text
+                // for every premise - different facts matching one pattern
+                let keys = if self.same_keys { prem.iter().map(|_| "Fact.v == true".to_string()).collect() }
+                           else { prem.iter().map(|p| format!("F{}.v == true", p.id())).collect() };
                 self.g.insert_proof(FactHandle::new(h), key(h), format!("R{}", h), prem, keys);
             }
             "invalidate" => self.g.invalidate_handle(&FactHandle::new(h)),
